@@ -126,7 +126,9 @@ impl super::Connector for SocksConnector {
         };
         req.write_to(&mut server, PasswordAuth::optional()).await?;
         let resp = SocksResponse::read_from(&mut server).await?;
-        if resp.cmd != SOCKS_REPLY_OK {
+        // a SOCKS4 reply carries its own code: 90 is "request granted"
+        let granted = if resp.version == 4 { 90 } else { SOCKS_REPLY_OK };
+        if resp.cmd != granted {
             bail!("upstream server failure: {:?}", resp.cmd);
         }
         ctx.write()
